@@ -110,6 +110,137 @@ def wMod (file type name : String) (prio : Int) (pers : Nat) (c : Char) : File :
 def wEnv (fs : List File) : Env := ⟨1000, 1000, some ⟨[], fs⟩, ⟨[], []⟩, some 0, 1, none⟩
 def wView (r : Result) : List (String × Bool) := r.mods.map fun m => (String.ofList m.file, m.active)
 
+/-! ## the refusal decision table -/
+
+/-- which directory: PDSH_MODULE_DIR is used iff it is set and the caller is neither root nor set-uid -/
+theorem dir_decision (e : Env) :
+    chooseDir e = if e.uid ≠ 0 ∧ e.uid = e.euid then e.envDir.getD e.builtin else e.builtin := by
+  unfold chooseDir
+  cases e.envDir with
+  | none => simp
+  | some d =>
+    by_cases h : e.uid = 0 ∨ e.uid ≠ e.euid
+    · have : ¬ (e.uid ≠ 0 ∧ e.uid = e.euid) := by
+        rcases h with h | h
+        · exact fun x => x.1 h
+        · exact fun x => h x.2
+      simp [h, this]
+    · have : e.uid ≠ 0 ∧ e.uid = e.euid := by
+        constructor
+        · exact fun x => h (Or.inl x)
+        · exact Classical.byContradiction fun x => h (Or.inr x)
+      simp [h, this]
+
+/-- the path test as a table over every ancestor's stat result: accepted iff EVERY ancestor (up to
+    and including "/") can be stat'ed, is a directory, is owned by root, the caller or the owner of
+    the pdsh binary, and is not world-writable unless sticky -- for every uid, owner and list of
+    (st_uid, st_mode) -/
+theorem path_decision (uid owner : Nat) (path : List (Option FStat)) :
+    pathOk uid owner path = true ↔
+      ∀ x ∈ path, ∃ st, x = some st ∧ isDir st.mode = true ∧
+        (st.uid = 0 ∨ st.uid = uid ∨ st.uid = owner) ∧
+        (st.mode &&& S_IWOTH = 0 ∨ st.mode &&& S_ISVTX ≠ 0) := by
+  induction path with
+  | nil => simp [pathOk]
+  | cons x rest ih =>
+    cases x with
+    | none =>
+      simp only [pathOk, Bool.false_eq_true, false_iff]
+      intro h
+      obtain ⟨st, hst, _⟩ := h none (by simp)
+      cases hst
+    | some st =>
+      simp only [pathOk, Bool.and_eq_true, ih, List.mem_cons, forall_eq_or_imp]
+      constructor
+      · rintro ⟨hd, hr⟩
+        refine ⟨⟨st, rfl, ?_⟩, hr⟩
+        simp only [dirOk, ownerOk, Bool.and_eq_true, Bool.or_eq_true, beq_iff_eq, Bool.not_eq_true',
+          Bool.and_eq_false_iff, bne_eq_false_iff_eq, beq_eq_false_iff_ne] at hd
+        refine ⟨hd.1.1, ?_, hd.2⟩
+        rcases hd.1.2 with (h1 | h1) | h1 <;> simp [h1]
+      · rintro ⟨⟨st', hst', hdir, hown, hww⟩, hr⟩
+        cases hst'
+        refine ⟨?_, hr⟩
+        simp only [dirOk, ownerOk, Bool.and_eq_true, Bool.or_eq_true, beq_iff_eq, Bool.not_eq_true',
+          Bool.and_eq_false_iff, bne_eq_false_iff_eq, beq_eq_false_iff_ne]
+        refine ⟨⟨hdir, ?_⟩, hww⟩
+        rcases hown with h1 | h1 | h1
+        · exact Or.inl (Or.inl h1)
+        · exact Or.inl (Or.inr h1)
+        · exact Or.inr h1
+
+/-- the per-file test as a table: a file is handed to dlopen iff it can be stat'ed, is a regular
+    file, is owned by root, the caller or the owner of the pdsh binary, and is not world-writable -/
+theorem file_decision (uid owner : Nat) (f : File) :
+    secure uid owner f = true ↔
+      ∃ st, f.st = some st ∧ isReg st.mode = true ∧ (st.uid = 0 ∨ st.uid = uid ∨ st.uid = owner) ∧
+        st.mode &&& S_IWOTH = 0 := by
+  unfold secure
+  cases f.st with
+  | none => simp
+  | some st =>
+    simp only [fileOk, ownerOk, Bool.and_eq_true, Bool.or_eq_true, beq_iff_eq, Option.some.injEq, exists_eq_left']
+    constructor
+    · rintro ⟨⟨h1, h2⟩, h3⟩
+      exact ⟨h1, by rcases h2 with (h | h) | h <;> simp [h], h3⟩
+    · rintro ⟨h1, h2, h3⟩
+      refine ⟨⟨h1, ?_⟩, h3⟩
+      rcases h2 with h | h | h
+      · exact Or.inl (Or.inl h)
+      · exact Or.inl (Or.inr h)
+      · exact Or.inr h
+
+/-- the complete decision: WHAT is handed to dlopen, for every environment and directory -- nothing
+    when the owner of the binary is unknown or the path test fails, else exactly the directory
+    entries that pass the per-file test, in enumeration order, whatever they contain -/
+theorem opened_decision (e : Env) (d : Dir) :
+    (loadDir e d).opened =
+      match e.owner with
+      | none => []
+      | some owner =>
+        if pathOk e.uid owner d.path then (d.files.filter (secure e.uid owner)).map (·.fname) else [] := by
+  rw [show loadDir e d = loadDirG beatsPrio cmpF e d from rfl]
+  cases ho : e.owner with
+  | none => rw [loadDir_fatal_owner _ _ e d ho]
+  | some owner =>
+    cases hp : pathOk e.uid owner d.path with
+    | false => rw [loadDir_fatal_path _ _ e d owner ho hp]; simp [hp]
+    | true =>
+      by_cases hc : (loadFilesG beatsPrio e.uid owner e.pers d.files).count = 0
+      · rw [loadDir_fatal_count _ _ e d owner ho hp hc]; simp [opened_eq, hp]
+      · rw [loadDir_ok _ _ e d owner ho hp hc]; simp [opened_eq, hp]
+
+/-- the same table for the code as it is now (personality first, ties broken): rewriting and the new
+    replacement rule change nothing about what is opened -/
+theorem opened_decision_current (e : Env) :
+    (Tie.loadAllPF e).opened =
+      match e.owner with
+      | none => []
+      | some owner =>
+        if pathOk e.uid owner (chooseDir e).path then
+          ((chooseDir e).files.filter (secure e.uid owner)).map (·.fname)
+        else [] := by
+  rw [loadAllPF_eq]
+  have hown : (persFirstEnv e).owner = e.owner := rfl
+  have hpath : (persFirstDir e.pers (chooseDir e)).path = (chooseDir e).path := rfl
+  cases ho : e.owner with
+  | none => rw [loadDir_fatal_owner _ _ _ _ (by rw [hown]; exact ho)]
+  | some owner =>
+    cases hp : pathOk e.uid owner (chooseDir e).path with
+    | false =>
+      rw [loadDir_fatal_path _ _ _ _ owner (by rw [hown]; exact ho) (by rw [hpath]; exact hp)]; simp [hp]
+    | true =>
+      have hop : (loadFilesG Tie.beats (persFirstEnv e).uid owner (persFirstEnv e).pers
+          (persFirstDir e.pers (chooseDir e)).files).opened =
+          ((chooseDir e).files.filter (secure e.uid owner)).map (·.fname) := by
+        rw [opened_eq]; exact opened_persFirst e.uid owner e.pers (chooseDir e).files
+      by_cases hc : (loadFilesG Tie.beats (persFirstEnv e).uid owner (persFirstEnv e).pers
+          (persFirstDir e.pers (chooseDir e)).files).count = 0
+      · rw [loadDir_fatal_count _ _ _ _ owner (by rw [hown]; exact ho) (by rw [hpath]; exact hp) hc]
+        simp [hop, hp]
+      · rw [loadDir_ok _ _ _ _ owner (by rw [hown]; exact ho) (by rw [hpath]; exact hp) hc]
+        simp [hop, hp]
+
 /-! ## determinism -/
 
 /-
@@ -216,6 +347,19 @@ theorem dup_personality_witness :
                           wMod "z.so" "misc" "zeta" 50 3 'm']))
       = [("lo.so", true), ("z.so", true)] := by
   decide
+
+/-- mod_process_opt: what happens to an option character on the command line -- refused by getopt,
+    accepted without an active owner, or handed to a module -- and WHICH module gets it is the same
+    for every enumeration order of the directory (current code with findings/C17.patch, distinct
+    file names); together with `inactive_options_not_accepted` (the receiver is active and owns the
+    character) this is the dispatch clause -/
+theorem dispatch_deterministic (e : Env) (p : List (Option FStat)) (fs₁ fs₂ : List File) (hp : fs₁.Perm fs₂)
+    (hn : (fs₁.map (·.fname)).Nodup) (c : Char) :
+    optUse (Tie.loadDir e ⟨p, fs₁.map (persFirstFile e.pers)⟩) c =
+      optUse (Tie.loadDir e ⟨p, fs₂.map (persFirstFile e.pers)⟩) c := by
+  obtain ⟨_, hm, _, ho, _, _⟩ := perm_invariant_tiefix e p fs₁ fs₂ hp hn
+  unfold optUse
+  rw [hm, ho]
 
 /-! ## duplicates -/
 
